@@ -1134,3 +1134,300 @@ Proof.
   - unfold refines, spec. rewrite Hfa. simpl. destruct (check_file_arg_bad fl p Hfa) as [d Hd].
     exists d. unfold run. rewrite Hd. reflexivity.
 Qed.
+
+(* ----------------------------------------------------------- consequences *)
+
+Lemma refines_meets : forall o c fl p, perm_oracle o -> refines o c fl p ->
+  meets c p (run o c fl p) (spec c fl p) = true.
+Proof.
+  intros o c fl p Ho H. unfold refines in H. destruct (spec c fl p) as [|fs].
+  - destruct H as [d Hd]. rewrite Hd. reflexivity.
+  - destruct H as [Hr Ha]. rewrite Hr. simpl. rewrite srcmap_same_refl, Ha.
+    rewrite (perm_eqb_complete _ _ (Ho _ (map fst fs))). reflexivity.
+Qed.
+
+Theorem run_meets_spec : forall o c fl p,
+  perm_oracle o -> wf_pkgb p = true -> flags_okb fl = true -> known_class c fl p = false ->
+  meets c p (run o c fl p) (spec c fl p) = true.
+Proof. intros o c fl p Ho Hwf Hfl Hk. apply refines_meets; [exact Ho|]. apply run_refines_spec; assumption. Qed.
+
+(* the success message lists exactly the written files -- for every input *)
+Theorem message_lists_every_file : forall o c fl p files listed,
+  perm_oracle o -> run o c fl p = Done files listed -> Permutation listed (map fst files).
+Proof.
+  intros o c fl p files listed Ho H. unfold run in H. destruct (check_file_arg fl p); [discriminate|].
+  unfold run_loaded in H.
+  destruct (if fl_specified fl
+            then match confirm_specified o p fl (fl_types fl) [] with
+                 | Some fmap => Some (fl_types fl, fmap) | None => None end
+            else Some (list_types c fl p, [])) as [[types fmap]|]; [|discriminate].
+  destruct (gen_loop c p fl (all_in_one_file fl p) fmap types [] []) as [[[d|] fs] merged]; [discriminate|].
+  inversion H; subst. apply Ho.
+Qed.
+
+(* naming a missing or wrong-kind type (for any of the four subcommands, function-local
+   types included): a diagnostic and no file at all.  No guard besides well-formedness. *)
+Theorem bad_name_fails : forall o c fl p T,
+  perm_oracle o -> wf_pkgb p = true -> fl_specified fl = true ->
+  In T (fl_types fl) -> nameable c p T = false ->
+  exists d, run o c fl p = Failed d.
+Proof.
+  intros o c fl p T Ho Hwf Hsp HT Hn. apply wf_pkgb_wf in Hwf.
+  unfold run. destruct (check_file_arg fl p) as [d|]; [exists d; reflexivity|].
+  unfold run_loaded. rewrite Hsp. destruct (confirm_specified o p fl (fl_types fl) []) as [fm|]; [|eexists; reflexivity].
+  destruct (make_data_not_nameable c p T Hwf Hn) as [d Hd].
+  destruct (gen_loop_fatal c p fl (all_in_one_file fl p) fm (fl_types fl) [] []) as [d' [fs [m Hg]]].
+  - exists T, d. rewrite Hsp. tauto.
+  - rewrite Hg. exists d'. reflexivity.
+Qed.
+
+(* the code's decision to generate for an explicitly named type is the declarative [nameable] *)
+Theorem generated_iff_nameable : forall c p T, wf_pkgb p = true ->
+  (make_data c p true T = MGen <-> nameable c p T = true).
+Proof.
+  intros c p T Hwf. apply wf_pkgb_wf in Hwf. split.
+  - intros Hg. destruct (nameable c p T) eqn:Hn; [reflexivity|]. exfalso.
+    destruct (make_data_not_nameable c p T Hwf Hn) as [d Hd]. congruence.
+  - intros Hn. apply make_data_nameable; assumption.
+Qed.
+
+(* ... and otherwise it is a diagnostic, never a silent skip *)
+Theorem named_is_generated_or_fatal : forall c p T, wf_pkgb p = true ->
+  make_data c p true T = MGen \/ exists d, make_data c p true T = MFatal d.
+Proof.
+  intros c p T Hwf. destruct (nameable c p T) eqn:Hn.
+  - left. apply make_data_nameable; [apply wf_pkgb_wf; exact Hwf | exact Hn].
+  - right. apply make_data_not_nameable; [apply wf_pkgb_wf; exact Hwf | exact Hn].
+Qed.
+
+(* the code's two-stage filter of -file / -type=* (ListTypes, then MakeData
+   skipping) is the declarative [listable] on package-level declarations *)
+Theorem listed_iff_listable : forall c p t, wf_pkgb p = true -> In t (pkg_specs p) ->
+  (test_node_list c t && keep c p false (ts_name t)) = listable c p t.
+Proof.
+  intros c p t Hwf Ht. apply wf_pkgb_wf in Hwf. destruct (test_node_list c t) eqn:Et; simpl.
+  - unfold keep. rewrite (make_data_listed c p t Hwf Ht Et). destruct (listable c p t); reflexivity.
+  - destruct (listable c p t) eqn:El; [|reflexivity]. apply listable_test in El. congruence.
+Qed.
+
+(* function-local type declarations are invisible to every listing mode *)
+Theorem list_types_top_level_only : forall c fl p T, In T (list_types c fl p) ->
+  exists f t, In f (p_files p) /\ In t (top_specs f) /\ ts_name t = T /\ test_node_list c t = true.
+Proof.
+  intros c fl p T H. unfold list_types in H. apply in_flat_map in H. destruct H as [f [Hf H]].
+  destruct (test_file fl f); [|contradiction]. apply in_map_iff in H. destruct H as [t [He Ht]].
+  apply filter_In in Ht. exists f, t. tauto.
+Qed.
+
+(* -type=A,B: exactly the named types, one file each, named after the declaring file *)
+Theorem type_list_exact : forall o c fl p,
+  perm_oracle o -> wf_pkgb p = true -> fl_specified fl = true -> fl_sep fl = true -> fl_file fl = "" ->
+  (forall T, In T (fl_types fl) -> nameable c p T = true) ->
+  NoDup (map (fun T => per_type_name c (decl_file p T) T) (fl_types fl)) ->
+  run o c fl p = Done (map (fun T => (per_type_name c (decl_file p T) T, [T])) (fl_types fl))
+                      (o _ (map (fun T => per_type_name c (decl_file p T) T) (fl_types fl))).
+Proof.
+  intros o c fl p Ho Hwf Hsp Hsep Hf Hall Hnd. apply wf_pkgb_wf in Hwf.
+  assert (Hfa : file_arg_ok fl p = true) by (unfold file_arg_ok; rewrite Hf; reflexivity).
+  assert (Hspec : spec c fl p = EFiles (map (fun T => (per_type_name c (decl_file p T) T, [T])) (fl_types fl))).
+  { unfold spec. rewrite Hfa, Hsp, Hf. simpl. rewrite andb_true_r.
+    assert (H : forallb (nameable c p) (fl_types fl) = true) by (apply forallb_forall; exact Hall).
+    rewrite H. apply nodupb_NoDup in Hnd. rewrite Hnd. reflexivity. }
+  pose proof (refines_specified o c fl p Ho Hwf Hsp Hsep Hfa) as R. unfold refines in R. rewrite Hspec in R.
+  destruct R as [R _]. rewrite R, map_map. reflexivity.
+Qed.
+
+(* two named types whose output names coincide (Order / ORDER, or the same name
+   twice): a diagnostic and no file -- no type is lost silently *)
+Theorem name_clash_fails : forall o c fl p,
+  perm_oracle o -> wf_pkgb p = true -> fl_specified fl = true -> fl_sep fl = true -> fl_file fl = "" ->
+  ~ NoDup (map (fun T => per_type_name c (decl_file p T) T) (fl_types fl)) ->
+  exists d, run o c fl p = Failed d.
+Proof.
+  intros o c fl p Ho Hwf Hsp Hsep Hf Hnd. apply wf_pkgb_wf in Hwf.
+  assert (Hfa : file_arg_ok fl p = true) by (unfold file_arg_ok; rewrite Hf; reflexivity).
+  assert (Hspec : spec c fl p = EFail).
+  { unfold spec. rewrite Hfa, Hsp.
+    destruct (nodupb (map (fun T => per_type_name c (decl_file p T) T) (fl_types fl))) eqn:E.
+    - exfalso. apply Hnd. apply nodupb_NoDup. exact E.
+    - rewrite andb_false_r. reflexivity. }
+  pose proof (refines_specified o c fl p Ho Hwf Hsp Hsep Hfa) as R. unfold refines in R. rewrite Hspec in R. exact R.
+Qed.
+
+Lemma file_named_self : forall p f, wf p -> In f (p_files p) -> file_named p (f_name f) = top_specs f.
+Proof.
+  intros p f W Hf. unfold file_named. destruct (find (fun f0 => f_name f0 =? f_name f) (p_files p)) as [f'|] eqn:E.
+  - apply find_some in E. destruct E as [Hf' He]. apply String.eqb_eq in He.
+    rewrite (NoDup_map_inj _ _ f_name _ f' f (wf_files p W) Hf' Hf He). reflexivity.
+  - pose proof (find_none _ _ E f Hf) as C. simpl in C. rewrite String.eqb_refl in C. discriminate.
+Qed.
+
+(* -file=f.go: exactly the eligible declarations of f.go, in declaration order, in f.shoot<cmd>.go *)
+Theorem file_mode_exact : forall o c fl p f,
+  perm_oracle o -> wf_pkgb p = true -> fl_specified fl = false -> fl_sep fl = false ->
+  In f (p_files p) -> fl_file fl = f_name f -> ends_with ".go" (f_name f) = true ->
+  let sel := map ts_name (filter (listable c p) (top_specs f)) in
+  run o c fl p = match sel with
+                 | [] => Done [] (o _ [])
+                 | _ => Done [(trim_go (f_name f) ++ "." ++ shootcmd c ++ ".go", sel)]
+                             (o _ [trim_go (f_name f) ++ "." ++ shootcmd c ++ ".go"])
+                 end.
+Proof.
+  intros o c fl p f Ho Hwf Hsp Hsep Hf Hfile Hgo sel. apply wf_pkgb_wf in Hwf.
+  assert (Hne : f_name f <> "").
+  { intros C. pose proof (wf_visible p Hwf f Hf) as V. rewrite C in V. discriminate. }
+  assert (Hfa : file_arg_ok fl p = true).
+  { unfold file_arg_ok. rewrite Hfile, Hgo. apply String.eqb_neq in Hne. rewrite Hne. simpl.
+    apply mem_In. apply in_map. exact Hf. }
+  assert (Hfn : file_named p (fl_file fl) = top_specs f) by (rewrite Hfile; apply file_named_self; assumption).
+  assert (Hnes : (fl_file fl =? "") = false) by (rewrite Hfile; apply String.eqb_neq; exact Hne).
+  assert (Hspec : spec c fl p = match sel with [] => EFiles [] | _ => EFiles [(all_in_one_name c (fl_file fl), sel)] end).
+  { unfold spec. rewrite Hfa, Hsp, Hsep, Hnes. simpl. rewrite Hfn. fold sel. destruct sel; reflexivity. }
+  assert (R : refines o c fl p).
+  { apply refines_listed; try assumption.
+    - unfold k_star_no_generate_line, star_mode. rewrite Hsp, Hnes. reflexivity.
+    - unfold k_star_sep_file, star_mode. rewrite Hsp, Hnes. reflexivity. }
+  unfold refines in R. rewrite Hspec in R. destruct sel as [|T0 sel'].
+  - destruct R as [R _]. exact R.
+  - destruct R as [R _]. rewrite R. unfold all_in_one_name. rewrite Hfile. reflexivity.
+Qed.
+
+(* -file=f.go -sep: one file f.shoot<cmd>.<type>.go per eligible declaration of f.go;
+   two of them with one name (types differing only in case) is a diagnostic *)
+Theorem file_mode_sep_exact : forall o c fl p f,
+  perm_oracle o -> wf_pkgb p = true -> fl_specified fl = false -> fl_sep fl = true ->
+  In f (p_files p) -> fl_file fl = f_name f -> ends_with ".go" (f_name f) = true ->
+  let sel := map ts_name (filter (listable c p) (top_specs f)) in
+  let name := fun T => per_type_name c (f_name f) T in
+  (NoDup (map name sel) -> run o c fl p = Done (map (fun T => (name T, [T])) sel) (o _ (map name sel))) /\
+  (~ NoDup (map name sel) -> exists d, run o c fl p = Failed d).
+Proof.
+  intros o c fl p f Ho Hwf Hsp Hsep Hf Hfile Hgo sel name. apply wf_pkgb_wf in Hwf.
+  assert (Hne : f_name f <> "").
+  { intros C. pose proof (wf_visible p Hwf f Hf) as V. rewrite C in V. discriminate. }
+  assert (Hfa : file_arg_ok fl p = true).
+  { unfold file_arg_ok. rewrite Hfile, Hgo. apply String.eqb_neq in Hne. rewrite Hne. simpl.
+    apply mem_In. apply in_map. exact Hf. }
+  assert (Hfn : file_named p (fl_file fl) = top_specs f) by (rewrite Hfile; apply file_named_self; assumption).
+  assert (Hnes : (fl_file fl =? "") = false) by (rewrite Hfile; apply String.eqb_neq; exact Hne).
+  assert (Hnames : map (fun T => per_type_name c (decl_file p T) T) sel = map name sel).
+  { apply map_ext_in. intros T HT. unfold sel in HT. apply in_map_iff in HT. destruct HT as [t [He Ht]].
+    apply filter_In in Ht. destruct Ht as [Ht _]. subst T. unfold name. rewrite (decl_file_spec p f t Hwf Hf Ht). reflexivity. }
+  assert (Hpairs : map (fun T => (per_type_name c (decl_file p T) T, [T])) sel = map (fun T => (name T, [T])) sel).
+  { apply map_ext_in. intros T HT. unfold sel in HT. apply in_map_iff in HT. destruct HT as [t [He Ht]].
+    apply filter_In in Ht. destruct Ht as [Ht _]. subst T. unfold name. rewrite (decl_file_spec p f t Hwf Hf Ht). reflexivity. }
+  assert (R : refines o c fl p).
+  { apply refines_listed; try assumption.
+    - unfold k_star_no_generate_line, star_mode. rewrite Hsp, Hnes. reflexivity.
+    - unfold k_star_sep_file, star_mode. rewrite Hsp, Hnes. reflexivity. }
+  unfold refines, spec in R. rewrite Hfa, Hsp, Hsep, Hnes in R. simpl in R. rewrite Hfn in R. fold sel in R.
+  rewrite Hnames, Hpairs in R. split; intros Hnd.
+  - apply nodupb_NoDup in Hnd. rewrite Hnd in R. destruct R as [R _]. rewrite R, map_map. reflexivity.
+  - destruct (nodupb (map name sel)) eqn:E; [exfalso; apply Hnd; apply nodupb_NoDup; exact E | exact R].
+Qed.
+
+(* -type=*: all eligible declarations of the package, in file and declaration
+   order, in <file of the //go:generate line>.shoot<cmd>.go *)
+Theorem star_mode_exact : forall o c fl p,
+  perm_oracle o -> wf_pkgb p = true -> fl_specified fl = false -> fl_sep fl = false -> fl_file fl = "" ->
+  all_in_one_file fl p <> "" ->
+  let sel := map ts_name (filter (listable c p) (pkg_specs p)) in
+  run o c fl p = match sel with
+                 | [] => Done [] (o _ [])
+                 | _ => Done [(trim_go (all_in_one_file fl p) ++ "." ++ shootcmd c ++ ".go", sel)]
+                             (o _ [trim_go (all_in_one_file fl p) ++ "." ++ shootcmd c ++ ".go"])
+                 end.
+Proof.
+  intros o c fl p Ho Hwf Hsp Hsep Hf Haio sel. apply wf_pkgb_wf in Hwf.
+  assert (Hfa : file_arg_ok fl p = true) by (unfold file_arg_ok; rewrite Hf; reflexivity).
+  assert (Hspec : spec c fl p = match sel with [] => EFiles [] | _ => EFiles [(all_in_one_name c (all_in_one_file fl p), sel)] end).
+  { unfold spec. rewrite Hfa, Hsp, Hsep, Hf. simpl. fold sel. destruct sel; reflexivity. }
+  assert (R : refines o c fl p).
+  { apply refines_listed; try assumption.
+    - unfold k_star_no_generate_line. apply String.eqb_neq in Haio. rewrite Haio. rewrite andb_false_r. reflexivity.
+    - unfold k_star_sep_file. rewrite Hsep. rewrite andb_false_r. reflexivity. }
+  unfold refines in R. rewrite Hspec in R. destruct sel as [|T0 sel'].
+  - destruct R as [R _]. exact R.
+  - destruct R as [R _]. rewrite R. reflexivity.
+Qed.
+
+(* getGoFile is independent of the iteration order of TypesInfo.Defs: the file
+   holding the package-level declaration (type parameters and function-local
+   types of the same name do not count) *)
+Theorem get_go_file_decl : forall o p T, perm_oracle o -> wf_pkgb p = true -> get_go_file o p T = decl_file p T.
+Proof. intros o p T Ho Hwf. apply get_go_file_perm; [exact Ho | apply wf_pkgb_wf; exact Hwf]. Qed.
+
+Theorem decl_file_declares : forall p f t, wf_pkgb p = true -> In f (p_files p) -> In t (top_specs f) ->
+  decl_file p (ts_name t) = f_name f.
+Proof. intros p f t Hwf. apply decl_file_spec. apply wf_pkgb_wf. exact Hwf. Qed.
+
+(* ------------------------- the class of K_star_no_generate_line, in general *)
+
+(* -file / -type=* without -sep, computed without any assumption on //go:generate lines *)
+Lemma run_listed_merged : forall o c fl p, perm_oracle o -> wf p ->
+  fl_specified fl = false -> fl_sep fl = false -> file_arg_ok fl p = true ->
+  run o c fl p =
+  match spec_selection c fl p with
+  | [] => Done [] (o _ [])
+  | sel => let n := all_in_one_name c (if fl_file fl =? "" then all_in_one_file fl p else fl_file fl) in
+           Done [(n, sel)] (o _ [n])
+  end.
+Proof.
+  intros o c fl p Ho W Hsp Hsep Hfa.
+  set (pool := if fl_file fl =? "" then pkg_specs p else file_named p (fl_file fl)).
+  assert (Hpool : forall t, In t pool -> In t (pkg_specs p)).
+  { intros t Ht. unfold pool in Ht. destruct (fl_file fl =? ""); [exact Ht|].
+    destruct (file_named_in p _ t Ht) as [f [Hf [_ Htf]]]. eapply top_specs_in_pkg; eassumption. }
+  assert (Hlist : list_types c fl p = map ts_name (filter (test_node_list c) pool)).
+  { unfold pool. destruct (fl_file fl =? "") eqn:Ef.
+    - apply String.eqb_eq in Ef. apply list_types_all; assumption.
+    - apply String.eqb_neq in Ef. apply list_types_file; assumption. }
+  assert (Hnofatal : forall T d, In T (map ts_name (filter (test_node_list c) pool)) ->
+            make_data c p (fl_specified fl) T <> MFatal d).
+  { intros T d HT. rewrite Hsp. eapply listed_no_fatal; eassumption. }
+  unfold run. rewrite (check_file_arg_ok fl p Hfa). unfold run_loaded. rewrite Hsp, Hlist.
+  rewrite gen_loop_merge by assumption. rewrite Hsp, filter_keep_listable by assumption.
+  unfold spec_selection. fold pool. simpl.
+  destruct (map ts_name (filter (listable c p) pool)) as [|T0 sel']; [reflexivity|].
+  rewrite file_name_all. reflexivity.
+Qed.
+
+Lemma trim_go_head : forall n, visible_file n = true -> exists ch r, trim_go n = String ch r /\ ch <> "."%char.
+Proof.
+  intros [|ch n'] H; [discriminate|]. unfold visible_file in H. rewrite !andb_true_iff in H. destruct H as [[_ H] _].
+  apply negb_true_iff in H. destruct (Ascii.eqb ch ".") eqn:E.
+  - apply Ascii.eqb_eq in E. subst ch.
+    assert (C : has_prefix "." (String "." n') = true) by (unfold has_prefix; simpl; apply prefix_empty).
+    rewrite C in H. discriminate H.
+  - exists ch, (trim_go n'). split.
+    + simpl. rewrite E. reflexivity.
+    + intros C. subst ch. discriminate E.
+Qed.
+
+Lemma dot_name_unanchored : forall c p, wf p -> anchored c p (all_in_one_name c "") = false.
+Proof.
+  intros c p W. unfold anchored. apply existsb_false_forall. intros f Hf.
+  destruct (trim_go_head (f_name f) (wf_visible p W f Hf)) as [ch [r [Ht Hne]]]. rewrite Ht.
+  unfold has_prefix, all_in_one_name. simpl. destruct (ascii_dec ch "."); [contradiction | reflexivity].
+Qed.
+
+(* `-type=*` in a package where no //go:generate line ends with the command
+   line: whenever something is eligible, ALL of it goes to the dot-file
+   .shoot<cmd>.go, which is not named after any source file (and which the go
+   tool ignores) -- for every well-formed package, not only the witness *)
+Theorem star_without_generate_line : forall o c fl p, perm_oracle o -> wf_pkgb p = true ->
+  fl_specified fl = false -> fl_sep fl = false -> fl_file fl = "" -> all_in_one_file fl p = "" ->
+  spec_selection c fl p <> [] ->
+  run o c fl p = Done [("." ++ shootcmd c ++ ".go", spec_selection c fl p)] (o _ ["." ++ shootcmd c ++ ".go"]) /\
+  anchored c p ("." ++ shootcmd c ++ ".go") = false /\
+  meets c p (run o c fl p) (spec c fl p) = false.
+Proof.
+  intros o c fl p Ho Hwf Hsp Hsep Hf Haio Hne. apply wf_pkgb_wf in Hwf.
+  assert (Hfa : file_arg_ok fl p = true) by (unfold file_arg_ok; rewrite Hf; reflexivity).
+  pose proof (run_listed_merged o c fl p Ho Hwf Hsp Hsep Hfa) as R.
+  rewrite Hf, Haio in R. simpl in R.
+  pose proof (dot_name_unanchored c p Hwf) as U. unfold all_in_one_name in U. simpl in U.
+  destruct (spec_selection c fl p) as [|T0 sel'] eqn:Es; [contradiction|].
+  unfold all_in_one_name in R. simpl in R. split; [exact R|]. split; [exact U|].
+  rewrite R. destruct (spec c fl p); [reflexivity|]. simpl. rewrite U. rewrite !andb_false_r. reflexivity.
+Qed.
